@@ -118,7 +118,7 @@ def gen_world(rng, focus=None):
         if t["outs"] and rng.random() < 0.12 and not leaf:
             t["bin"] = True
         if leaf and rng.random() < 0.15:
-            t["test"] = True
+            t["test"] = True                  # (reset below if a later target comes to depend on it)
         # output checks
         nc = rng.choice([0, 0, 0, 1, 2, 3] if not f3 else [0, 0, 1, 2, 2, 3])
         t["checks"] = [{"sleep": rng.choice([0, 0.15, 0.3]), "expected": rng.random() < 0.4, "fail": False,
@@ -240,6 +240,18 @@ def gen_world(rng, focus=None):
             t["test"] = True
         if any(t["test"] for t in targets):
             cmd = "test"
+    # a non-test target must not depend on a test target (grog's analysis rejects that graph before anything runs): only targets that
+    # nothing but tests depend on stay tests
+    changed = True
+    while changed:
+        changed = False
+        for u in targets:
+            if not u["test"]:
+                for d in u["deps"]:
+                    if targets[d]["test"]:
+                        targets[d]["test"] = False; changed = True
+    if cmd == "test" and not any(t["test"] for t in targets):
+        cmd = "build"
     return {"cfg": cfg, "targets": targets, "history": history, "interrupt": interrupt, "healed_at_start": healed, "slow_reader": slow_reader, "cmd": cmd}
 
 
@@ -958,6 +970,8 @@ def check_build(w, world, b, anc, ids, succeeded_ever, need_run, disturbed, inte
             V("C05", "failed-target-reported-successful", f"{name(t)} ran and {why}, but grog does not report it as failed (exit status {rc})")
     for i in check_started:
         t = T[i]
+        if cfg["fail_fast"] and failed_now:
+            continue        # as for commands: a check cut short by the fail-fast cancellation of another failure is not a failure of its own
         if t["cmdless"] and designed_fail(w, t) and i not in failed_now:
             V("C05", "failed-target-reported-successful", f"the output check of the command-less target {name(t)} fails but it is not reported as failed")
     if failed_now and rc == 0:
@@ -1018,7 +1032,11 @@ def check_build(w, world, b, anc, ids, succeeded_ever, need_run, disturbed, inte
     cmdless_ok = {i for i in check_started if T[i]["cmdless"] and i not in failed_now}
     succeeded_ever |= ok_now | cmdless_ok
     need_run -= (ok_now | cmdless_ok)
-    need_run |= failed_now | {i for i in range(n) if anc[i] & failed_now}
+    # What must run in a later keep-going build is tracked by cause: never built successfully (initially everything), tainted and not yet
+    # executed successfully (added by the taint step), not cacheable (judged at the check). A failure adds nothing to that: a target that
+    # failed stays in need_run if it was there (it is only removed on success); one that ran only because an output check failed, and whose
+    # check passes again later, is a legitimate cache hit; targets that were merely SKIPPED below a failure are cache hits too if they were
+    # built before and their dependencies reproduce the same outputs.
     if cfg["fail_fast"] and failed_now:
         need_run |= set(range(n)) - succeeded_ever
     # ---- C05: never cached -------------------------------------------------------------------------------------------------
